@@ -70,6 +70,8 @@ def gen_case(rng):
     step = rng.choice(STEPS)
     n = rng.randrange(3, 11) if step < 3600 else rng.randrange(3, 6)
     start = _start(rng)
+    if rng.random() < 0.1:
+        start = start.replace(microsecond=rng.choice([500000, 250000, 750000, 123456]))  # a start between two seconds
     events = []
     nev = rng.randrange(1, 6)
     used_removal = False
